@@ -51,6 +51,18 @@ template <int S> struct Runner {
       expect_bits("shift-propagate", p, flat(s2.propagateGrad(gdC, gdT), N), flat(PG, N));
       expect_bits("shift-energy-partials", p, matvec(s2.getEnergyPartialGradByCoeffs()), matvec(sp.getEnergyPartialGradByCoeffs()));
       { Eigen::VectorXd a = s2.getEnergyPartialGradByTimes(), b2 = sp.getEnergyPartialGradByTimes(); expect_bits("shift-energy-partials", p, std::vector<double>(a.data(), a.data() + a.size()), std::vector<double>(b2.data(), b2.data() + b2.size())); }
+      // the curve as a function of (t - start): values of every derivative order, the sampled arc length through the default-range
+      // overload and the time grid relative to the start are unchanged -- bit-identical when all the sums are exact (dyadic case)
+      if (dyadic_exact) {
+        const auto &t1 = sp.getTrajectory(); const auto &t2 = s2.getTrajectory(); const double dur = t1.getDuration();
+        ++c.st.comparisons;
+        if (!bits_equal(t2.getDuration(), dur) || !bits_equal(t2.getStartTime(), t1.getStartTime() + sh) || !bits_equal(t2.getEndTime(), t1.getEndTime() + sh)) fail("shift-range", p, fmt("start/end/duration %.17g/%.17g/%.17g", t2.getStartTime(), t2.getEndTime(), t2.getDuration()));
+        for (int i = 0; i <= 8; ++i) { const double u = dur * i / 8.0;  // dyadic fractions of a dyadic duration: exact
+          for (int k = 0; k < M; k += (i & 1) ? 2 : 1) { auto a = t1.evaluate(t1.getStartTime() + u, k), b = t2.evaluate(t2.getStartTime() + u, k); if (!bits_equal(a.data(), b.data(), D)) { fail("shift-evaluate", p, fmt("derivative %d at start + %.17g differs after the shift by %.17g", k, u, sh)); i = 9; break; } } }
+        int e2; (void)std::frexp(dur / 12.0, &e2); const double dt = std::ldexp(1.0, e2 - 1);   // dyadic step, 12..24 samples
+        expect_bits("shift-length", p, {t2.getTrajectoryLength(dt), t2.getTrajectoryLength(t2.getStartTime(), t2.getEndTime(), dt)}, {t1.getTrajectoryLength(dt), t1.getTrajectoryLength(t1.getStartTime(), t1.getEndTime(), dt)});
+        { std::vector<double> g1 = t1.generateTimeSequence(dt), g2 = t2.generateTimeSequence(dt); for (double &v : g1) v += sh; expect_bits("shift-time-grid", p, g2, g1); }
+      }
       // the same shift applied by update() on an existing object (same N, nothing resized) gives the same trajectory
       { Sp s3 = sp; (void)s3.getTrajectory().evaluate(s3.getStartTime(), 0); s3.update(q.T, q.P, q.t0, q.bc); ++c.st.comparisons;
         if (!mat_bits_equal(s3.getTrajectory().getCoefficients(), s2.getTrajectory().getCoefficients()) || s3.getTrajectory().getBreakpoints() != s2.getTrajectory().getBreakpoints() || s3.getCumulativeTimes() != s2.getCumulativeTimes() || s3.getStartTime() != s2.getStartTime() || s3.getEndTime() != s2.getEndTime())
@@ -90,7 +102,8 @@ template <int S> struct Runner {
       expect_bits("scale-data-energy-grad", p, flat(s2.getEnergyGrad(), N), w);
     }
     // ---- durations x b=2^k, boundary derivative j x b^-j: c_j x b^-j, energy x b^-(2s-1), exact ----
-    for (int k : {-2, 3}) {
+    // (k = 10 / -6 carry the lattice to durations of thousands of seconds / milliseconds: an absolute tolerance breaks exact homogeneity there)
+    for (int k : {-2, 3, 10, -6}) {
       double b = std::ldexp(1.0, k);
       Prob q = p; for (double &t : q.T) t *= b; q.t0 = p.t0;
       for (int side = 0; side < 2; ++side) for (int kk = 1; kk <= 3; ++kk) bc_ref(q.bc, side, kk) *= std::ldexp(1.0, -k * kk);
@@ -170,7 +183,7 @@ template <int S> static void explore(Ctx &c, long &id) {
       std::string key = fmt("S%d/N%d/b%d/w%ld/s%zu", S, N, base, w, si);
       if (!c.st.seen(key)) { bool pal = true; for (int i = 0; i < N; ++i) pal = pal && T[i] == T[N - 1 - i]; if (!pal || N >= 2) ++c.st.nontrivial; }
       c.st.cls(fmt("%s/%s", order_name(S), N == 1 ? "N=1" : N == 2 ? "N=2" : N == 3 ? "N=3" : "N>=4"));
-      if (my % 211 == 0) c.st.sample(fmt("unit %ld: %s D=%d N=%d word=%s sigma=%g: start shift x2, translation, data x 2^{-3,5}, durations x 2^{-2,3}, time reversal for %d basis data + generic", my, order_name(S), D, N, word_str(N, w, base).c_str(), sigmas[si], nbasis(S, N)));
+      if (my % 211 == 0) c.st.sample(fmt("unit %ld: %s D=%d N=%d word=%s sigma=%g: start shift x2, translation, data x 2^{-3,5}, durations x 2^{-6,-2,3,10}, time reversal for %d basis data + generic", my, order_name(S), D, N, word_str(N, w, base).c_str(), sigmas[si], nbasis(S, N)));
     }
   }
 }
